@@ -15,7 +15,7 @@ class Rec:
     __slots__ = ('nodes', 'gate_pass', 'gate_hit', 'state0', 'foreign', 'foreign_kinds', 'effects', 'kinds',
                  'kill_at', 'killed', 'depth', 'max_depth', 'in_lambda', 'lambda_nodes', 'builtin_calls',
                  'mutator_calls', 'value_hooks', 'builtin_hooks', 'lambdas', 'findings', 'log_effects',
-                 'scoped', 'bdepth', 'hof_depth', 'nodes_in_hof', 'track_kinds', 'pre_builtin_hooks', 'scope_depth0')
+                 'scoped', 'bdepth', 'hof_depth', 'nodes_in_hof', 'track_kinds', 'pre_builtin_hooks', 'scope_depth0', 'tainted')
 
     def __init__(self):
         self.nodes = 0
@@ -45,6 +45,7 @@ class Rec:
         self.hof_depth = 0
         self.nodes_in_hof = 0
         self.track_kinds = True
+        self.tainted = False        # a node produced text that embeds a memory address (stringified function)
         self.scope_depth0 = None    # depth of the scope stack when the first node of the call started
 
 
